@@ -157,6 +157,7 @@ def real_worker(item):
     res = runner(cfg, want=(), keep_output=True)
     errs = []
     n = 0
+    cells = []
     types = set()
     out = res.get("output")
     try:
@@ -184,6 +185,7 @@ def real_worker(item):
             path = os.path.join(sub, fname)
             n += 1
             tag = f"{name}:{fmt}:{fname},{ext}"
+            cells.append(tag)
             try:
                 fs.save_results(path, extension=ext)
             except Exception as e:
@@ -218,7 +220,7 @@ def real_worker(item):
         if k not in seen:
             seen.add(k)
             viol.append((k, dd, {"mode": "real", "name": name}))
-    return dict(errs=viol, n=n, types=sorted(types))
+    return dict(errs=viol, n=n, types=sorted(types), cells=cells)
 
 
 # ---------------------------------------------------------------------------------
@@ -244,6 +246,7 @@ def value_alphabet():
         "np.float64": np.float64(-2.5),
         "np.int32": np.int32(-3),
         "np.int64": np.int64(2**40),
+        "np.longdouble": np.longdouble(0.125),
         "0d-array": np.array(3.5),
         "float-array": np.array([1.0, np.nan, np.inf]),
         "int-array": np.arange(4),
@@ -268,6 +271,7 @@ def generated_worker(item):
     out = runs.scratch("c19g")
     errs = []
     n = 0
+    cells = []
     try:
         for nm in names:
             v = alpha[nm]
@@ -288,6 +292,7 @@ def generated_worker(item):
                     n += 1
                     path = os.path.join(out, f"g{n}.{fmt}")
                     tag = f"{nm}:{cname}:{fmt}"
+                    cells.append(tag)
                     try:
                         saver(d, path)
                     except Exception as e:
@@ -309,7 +314,7 @@ def generated_worker(item):
         if k not in seen:
             seen.add(k)
             viol.append((k, dd, {"mode": "generated", "names": list(names)}))
-    return dict(errs=viol, n=n)
+    return dict(errs=viol, n=n, cells=cells)
 
 
 # ---------------------------------------------------------------------------------
@@ -409,12 +414,14 @@ def run(ctx):
     items += [("gen", names[i::8]) for i in range(8)]
     items.append(("config", ctx.seed))
     types = set()
+    cells = set()
     for (kind, item), res in ctx.pmap(_dispatch, items):
         ctx.count("evaluations", res["n"])
+        cells |= set(res.get("cells", []))
         for v in res["errs"]:
             ctx.violation(*v)
         types |= set(res.get("types", []))
-    ctx.set("distinct_nontrivial", len(REAL) * len(SPELLINGS) + len(names) * 4 * 2)
+    ctx.set("distinct_nontrivial", len(cells))
     ctx.set("value_types_seen_in_real_results", sorted(types))
     ctx.set("rule", "real: 7 finished runs (std converged / prior-only / capped / long, INS with and without the independent set / capped) x 9 spellings of (format, file name, extension argument); generated: every value type of the 25-letter alphabet at top level, inside a dict, inside a dict at depth 2 and inside a list, in JSON and HDF5; config.json for 13 keyword sets with classes, functions, lambdas, a live pool, torch dtypes, arrays, numpy scalars, non-finite floats. Distinct/non-trivial: distinct (result, spelling) and (value type, nesting, format) cells")
     ctx.set("exhaustive", True)
